@@ -638,7 +638,36 @@ pub fn gen_scenario(rng: &mut vcorpus::val::Rng, thorough: bool) -> IndexScenari
          .collect();
       rounds.push(Round { pre, writers, check_new: rng.chance(400), merge: rng.chance(850), lookups });
    }
-   let pool = *rng.pick(&[1usize, 2, 3, 4, 8]);
+   // "hot shard" shape (concurrent full index): racers on one or two keys next to writers that
+   // keep the same few shards busy with unrelated keys, all in round 0 and again after a merge
+   if ty == "CRelFullIndex" && rng.chance(500) {
+      rounds.clear();
+      for round_no in 0..rng.range(1, 2) as u32 {
+         let race_base = (round_no + 1) * 50;
+         let n_race_keys = rng.range(1, 2) as u32;
+         let mut writers = vec![];
+         for _ in 0..rng.range(2, 3) {
+            let mut ops = vec![];
+            for _ in 0..rng.range(1, 2) {
+               next_val += 1;
+               ops.push(WOp { kind: 1, key: race_base + rng.below(n_race_keys as u64) as u32, val: next_val });
+            }
+            writers.push(ops);
+         }
+         for _ in 0..rng.range(1, 2) {
+            let mut ops = vec![];
+            for _ in 0..rng.range(2, 6) {
+               next_val += 1;
+               fresh_key += 1;
+               ops.push(WOp { kind: 0, key: fresh_key, val: next_val });
+            }
+            writers.push(ops);
+         }
+         rng.shuffle(&mut writers);
+         rounds.push(Round { pre: vec![], writers, check_new: rng.chance(300), merge: true, lookups: vec![race_base, race_base + 1] });
+      }
+   }
+   let pool = *rng.pick(&[2usize, 2, 3, 4, 4, 8, 1]);
    let construct_pool = if rng.chance(700) { pool } else { *rng.pick(&[1usize, 2, 3, 4, 8]) };
    IndexScenario { ty: ty.to_string(), pool, construct_pool, rounds }
 }
